@@ -893,7 +893,9 @@ func oracleC06(r *OpRun) {
 			lastUnlock := int64(0)
 			for _, m := range members {
 				b := r.sc.bind(h.Path, m)
-				if b == nil || b.Kube == nil || b.Kube.NoSync {
+				if b == nil || b.Kube == nil || b.Kube.NoSync || b.Kube.NsLabel != nil {
+					// (a labelSelector binding may have no informer yet when it is synchronized; informers of
+					// namespaces that appear later start unlocked, so "the first unlock" says nothing there)
 					ok = false
 					break
 				}
